@@ -13,7 +13,7 @@ import (
 	"github.com/bolkedebruin/rdpgw/cmd/rdpgw/identity"
 )
 
-//vp:property C07 C01
+//vp:property C07 C01 C03
 //vp:bounds one legacy tunnel of client alice (RDG_OUT_DATA then RDG_IN_DATA, connection id "conn-1", full set-up, one DATA packet, then the client drops; its host has one chunk for the client); between the two requests (at = 0) or while the packet loop waits for its at-th packet (at = 1..5) a third request with the same connection id arrives from another address, authenticated as another user (bob) or as alice again: a second legacy RDG_OUT_DATA, a websocket upgrade (handshake, tunnel-create, then drops), a second RDG_IN_DATA (handshake, then drops; not at 0, where it would simply BE the tunnel's inbound connection), or an RDG_OUT_DATA request with only one of the two upgrade headers (Upgrade: websocket without Connection: upgrade, or the reverse), which cannot be upgraded
 //vp:assume one cooperative schedule per choice of `at` (the third request is served in full at that moment); the relay goroutine runs whenever the packet loop waits for the client; the token callback notes on the tunnel of its context who presented the token (as the security package's callback does)
 //vp:reach ended third-served
